@@ -217,10 +217,18 @@ MUTANTS = [
     ("dot-adjoint-kind-by-dtype-equality", {"C09": "A4.dtypecmp", "C05": "A4.dtypecmp"}, [(NV, "    return onp.asarray(out, dtype=A_dtype)", "    if onp.iscomplexobj(out) and A_dtype != complex:\n        out = onp.real(out)\n    return onp.asarray(out, dtype=A_dtype)")]),
     ("container-basis-placed-by-space-equality", {"C13": "A14.vspace"}, [(BU, "        for i, vs in self._kv_pairs(self.shape):\n            for x in vs.standard_basis():\n                yield self._subval(zero, i, x)", "        for slot in self._values(self.shape):\n            for x in slot.standard_basis():\n                yield self._map(lambda vs, z: x if vs == slot else z, zero)")]),
     ("container-basis-swapped-key", {"C13": "A14.vspace"}, [(BU, "                yield self._subval(zero, i, x)", "                yield self._subval(x, i, zero)")]),
+    ("concatenate-jvp-slot-by-identity", {"C02": "A2.position"}, [(NJ, "        if i == argnum:\n            result.append(g)", "        if axis_args[i] is axis_args[argnum]:\n            result.append(g)")]),
+    ("sum-vjp-template-from-dtype-option", {"C05": "A4.template"}, [(NV, "    shape, dtype = anp.shape(x), anp.result_type(x)\n    return lambda g: repeat_to_match_shape(g, shape, dtype, axis, keepdims)[0]", "    shape = anp.shape(x)\n    if dtype is None:\n        dtype = anp.result_type(x)\n    return lambda g: repeat_to_match_shape(g, shape, dtype, axis, keepdims)[0]")]),
+    ("complex64-scalar-in-real-space", {"C13": "A4.vspace", "C09": "A4.vspace"}, [(NS, "for type_ in [float, np.longdouble, np.float64, np.float32, np.float16]:", "for type_ in [float, np.longdouble, np.float64, np.float32, np.float16, np.complex64]:"), (NS, "for type_ in [complex, np.clongdouble, np.complex64, np.complex128]:", "for type_ in [complex, np.clongdouble, np.complex128]:")]),
+    ("diagonal-vjp-moveaxis-swapped", {"C01": "A16", "C15": "A16"}, [(NV, "lambda ans, A, offset=0, axis1=0, axis2=1: lambda g: anp.make_diagonal(g, offset, axis1, axis2),", "lambda ans, A, offset=0, axis1=0, axis2=1: lambda g: anp.moveaxis(anp.make_diagonal(g, offset, axis1=-1, axis2=-2), (axis1, axis2), (-1, -2)),")]),
+    ("index-order-A-ignores-c-contiguity", {"C01": "A7.order", "C02": "A7.order"}, [(NV, "    flags = onp.asarray(getval(x)).flags\n    if flags.c_contiguous:", "    flags = onp.asarray(getval(x)).flags\n    if order == \"A\":\n        return \"F\" if flags.f_contiguous else \"C\"\n    if flags.c_contiguous:")]),
     ("container-space-loses-subval", {"C12": "A1.spaces"}, [(BU, "    def _subval(self, xs, idx, x):\n        d = dict(xs.items())\n        d[idx] = x\n        return d\n", "")]),
 ]
 
 BENIGN = [
+    ("diagonal-vjp-moveaxis-correct", [(NV, "lambda ans, A, offset=0, axis1=0, axis2=1: lambda g: anp.make_diagonal(g, offset, axis1, axis2),", "lambda ans, A, offset=0, axis1=0, axis2=1: lambda g: anp.moveaxis(anp.make_diagonal(g, offset, axis1=-1, axis2=-2), (-1, -2), (axis1, axis2)),")]),
+    ("index-order-A-by-isfortran", [(NV, "    flags = onp.asarray(getval(x)).flags\n    if flags.c_contiguous:", "    if order == \"A\":\n        return \"F\" if onp.isfortran(onp.asarray(getval(x))) else \"C\"\n    flags = onp.asarray(getval(x)).flags\n    if flags.c_contiguous:")]),
+    ("scalar-space-registration-by-issubclass-of-complexfloating", [(NS, "for type_ in [float, np.longdouble, np.float64, np.float32, np.float16]:\n    ArrayVSpace.register(type_)\n\nfor type_ in [complex, np.clongdouble, np.complex64, np.complex128]:\n    ComplexArrayVSpace.register(type_)", "for type_ in [float, np.longdouble, np.float64, np.float32, np.float16, complex, np.clongdouble, np.complex64, np.complex128]:\n    if issubclass(type_, (complex, np.complexfloating)):\n        ComplexArrayVSpace.register(type_)\n    else:\n        ArrayVSpace.register(type_)")]),
     ("container-basis-yield-from", [(BU, "        for i, vs in self._kv_pairs(self.shape):\n            for x in vs.standard_basis():\n                yield self._subval(zero, i, x)", "        for key, child in self._kv_pairs(self.shape):\n            yield from (self._subval(zero, key, e) for e in child.standard_basis())")]),
     ("dot-adjoint-kind-by-issubdtype", [(NV, "    return onp.asarray(out, dtype=A_dtype)", "    if onp.iscomplexobj(out) and not onp.issubdtype(A_dtype, onp.complexfloating):\n        out = onp.real(out)\n    return onp.asarray(out, dtype=A_dtype)")]),
     ("toposort-counting-in-nested-helper", [("autograd/util.py", "    child_counts = {}\n    stack = [end_node]\n    while stack:\n        node = stack.pop()\n        if node in child_counts:\n            child_counts[node] += 1\n        else:\n            child_counts[node] = 1\n            stack.extend(parents(node))\n", "    child_counts = {}\n    stack = [end_node]\n\n    def visit(node):\n        if node in child_counts:\n            child_counts[node] += 1\n        else:\n            child_counts[node] = 1\n            stack.extend(parents(node))\n\n    while stack:\n        visit(stack.pop())\n")]),
@@ -297,7 +305,7 @@ def _kept_patches():
                 fired = json.load(open(evf)).get("checks_fired", {})
             except Exception:
                 continue
-            if own in fired:
+            if own in fired and fired[own].get("exit", 1) == 1:
                 muts.append((f"seeded/{sid}", {own: ""}, [("<patch>", pd, "")]))
     bdir = os.path.join(base, "benign")
     if os.path.isdir(bdir):
